@@ -39,6 +39,19 @@ func sftpStore(dir string, n int, uncompressed bool) (*desync.SFTPStore, error) 
 	return desync.NewSFTPStore(u, desync.StoreOptions{N: n, Uncompressed: uncompressed})
 }
 
+// sftpIndexStore opens dir as an SFTP index store through the same shim.
+func sftpIndexStore(dir string) (*desync.SFTPIndexStore, error) {
+	exe, err := os.Executable()
+	if err != nil {
+		return nil, err
+	}
+	os.Setenv("CASYNC_SSH_PATH", exe)
+	os.Setenv("VERIF_SFTP_SHIM", "1")
+	defer os.Unsetenv("VERIF_SFTP_SHIM")
+	u, _ := url.Parse("sftp://localhost" + dir)
+	return desync.NewSFTPIndexStore(u, desync.StoreOptions{})
+}
+
 func repoDir() string {
 	if v := os.Getenv("VERIF_REPO"); v != "" {
 		return v
